@@ -6,7 +6,7 @@
                            configuration (unbounded: all digit strings, all admissible separators)
    3. *_seps               every stage after the lexer is insensitive to cf_dsep / cf_tsep
    4. examples             non-vacuity at binary64 through the whole model *)
-From SC.Model Require Import Base Num FloatIO Types Config Case Chrono UiTokens Post Parser Items Interp RuleFns Rules Format
+From SC.Model Require Import Base Num FloatIO Types Config Case Chrono UiTokens Rx Post Parser Items Interp RuleFns Rules Format
      Lexer Api.
 From Coq Require Import ZArith Lia.
 
@@ -616,3 +616,363 @@ Proof.
 Qed.
 
 End Real.
+
+(* ---- the lexer reads the separators only through read_decimal ---- *)
+Section LexerSeps.
+Context {F : Type} {NF : Num F}.
+Variable lx : lexdata.
+Variables c c' : config F.
+Hypothesis H : same_but_seps c c'.
+
+Ltac projs :=
+  rewrite ?(sbs_currency c c' H), ?(sbs_currency_alias c c' H), ?(sbs_rates c c' H), ?(sbs_timezones c c' H),
+          ?(sbs_word_group c c' H), ?(sbs_constant_pair c c' H), ?(sbs_rules c c' H), ?(sbs_types c c' H),
+          ?(sbs_type_conv c c' H), ?(sbs_months c c' H), ?(sbs_format c c' H), ?(sbs_type_group c c' H),
+          ?(sbs_money c c' H), ?(sbs_number c c' H), ?(sbs_percent c c' H), ?(sbs_tz c c' H).
+
+Lemma over_captures_ext (b1 b2 : @parser_body F) :
+  (forall c0 cp st, b1 c0 cp st = b2 c0 cp st) ->
+  forall c0 cps st, over_captures b1 c0 cps st = over_captures b2 c0 cps st.
+Proof.
+  intros E c0 cps. induction cps as [|cp r IH]; intros st; [reflexivity|].
+  cbn [over_captures]. rewrite E. destruct (b2 c0 cp st); cbn [bind]; [apply IH|reflexivity].
+Qed.
+
+Lemma over_regexes_ext (b1 b2 : @parser_body F) :
+  (forall c0 cp st, b1 c0 cp st = b2 c0 cp st) ->
+  forall data rs st, over_regexes b1 data rs st = over_regexes b2 data rs st.
+Proof.
+  intros E data rs. induction rs as [|c0 r IH]; intros st; [reflexivity|].
+  cbn [over_regexes]. rewrite (over_captures_ext b1 b2 E).
+  destruct (over_captures b2 c0 _ st); cbn [bind]; [apply IH|reflexivity].
+Qed.
+
+Lemma get_atom_seps today data rs : get_atom today c' data rs = get_atom today c data rs.
+Proof.
+  unfold get_atom, atom_of, get_time_offset. projs. reflexivity.
+Qed.
+
+Lemma alias_apply_seps today aliases t :
+  alias_apply lx today c' aliases t = alias_apply lx today c aliases t.
+Proof.
+  induction aliases as [|[c0 data] r IH]; [reflexivity|].
+  cbn [alias_apply]. rewrite get_atom_seps, IH. reflexivity.
+Qed.
+
+Lemma mapM_ext {A B} (f g : A -> res B) l : (forall x, f x = g x) -> mapM f l = mapM g l.
+Proof.
+  intro E. induction l as [|x r IH]; [reflexivity|]. cbn [mapM]. rewrite E, IH. reflexivity.
+Qed.
+
+Theorem alias_tokinizer_seps today lang st :
+  alias_tokinizer lx today c' lang st = alias_tokinizer lx today c lang st.
+Proof.
+  unfold alias_tokinizer.
+  rewrite (mapM_ext _ _ (ts_infos st) (alias_apply_seps today (lx_alias lx))).
+  destruct (mapM _ (ts_infos st)) as [infos1|]; cbn [bind]; [|reflexivity].
+  destruct (assoc lang (lx_lang_alias lx)) as [al|]; [|reflexivity].
+  rewrite (mapM_ext _ _ infos1 (alias_apply_seps today al)). reflexivity.
+Qed.
+
+Theorem language_tokinizer_seps lang line st :
+  language_tokinizer lx c' lang line st = language_tokinizer lx c lang line st.
+Proof. reflexivity. Qed.
+
+Variable line : str.
+(* the literals of the line are read alike (e.g. the line contains no separator character) *)
+Hypothesis Hrd : forall sp, read_decimal c' (slice line sp) = read_decimal c (slice line sp).
+
+Ltac crush :=
+  repeat match goal with
+         | |- ?x = ?x => reflexivity
+         | |- context [read_decimal c' (slice line ?sp)] => rewrite (Hrd sp)
+         | |- context [bind ?e _] => destruct e; cbn [bind]
+         | |- context [match ?e with _ => _ end] => destruct e
+         end.
+
+Lemma run_parser_seps today lang key rs st :
+  run_parser today c' lang line key rs st = run_parser today c lang line key rs st.
+Proof.
+  unfold run_parser.
+  repeat match goal with |- (if ?b then _ else _) = _ => destruct b end; try reflexivity.
+  - apply over_regexes_ext. intros. unfold field_body, get_field_type, lang_groups. projs. reflexivity.
+  - apply over_regexes_ext. intros. unfold money_body, read_currency. projs. crush.
+  - unfold atom_parser. rewrite get_atom_seps. reflexivity.
+  - apply over_regexes_ext. intros. unfold percent_body. crush.
+  - apply over_regexes_ext. intros. unfold timezone_body, parse_timezone. projs. reflexivity.
+  - apply over_regexes_ext. intros. unfold time_body, get_time_offset. projs. reflexivity.
+  - apply over_regexes_ext. intros. unfold number_body. crush.
+  - apply over_regexes_ext. intros. unfold text_body, lang_constants, get_time_offset, read_currency. projs. reflexivity.
+Qed.
+
+Theorem regex_tokinizer_seps today lang st :
+  regex_tokinizer lx today c' lang line st = regex_tokinizer lx today c lang line st.
+Proof.
+  unfold regex_tokinizer. f_equal. revert st.
+  induction RustConsts.PARSER_ORDER as [|k r IH]; intros st; [reflexivity|].
+  destruct (assoc k (lx_parse lx)) as [rs|]; [|apply IH].
+  rewrite run_parser_seps. destruct (run_parser today c lang line k rs st); cbn [bind]; [apply IH|reflexivity].
+Qed.
+
+End LexerSeps.
+
+(* the whole of Api.tokinize: on a line whose literals are read alike nothing depends on the separators *)
+Section TokinizeSeps.
+Context {F : Type} {NF : Num F}.
+Variable lx : lexdata.
+Variable ck : clock.
+
+Theorem tokinize_seps (c c' : config F) lang vs line :
+  same_but_seps c c' ->
+  (forall sp, read_decimal c' (slice line sp) = read_decimal c (slice line sp)) ->
+  tokinize lx ck c' lang vs line = tokinize lx ck c lang vs line.
+Proof.
+  intros H Hrd. unfold tokinize.
+  rewrite (language_tokinizer_seps lx c c' lang line).
+  destruct (language_tokinizer lx c lang line empty_state) as [st1|]; cbn [bind]; [|reflexivity].
+  rewrite (regex_tokinizer_seps lx c c' H line Hrd).
+  destruct (regex_tokinizer lx (ck_today ck) c lang line st1) as [st2|]; cbn [bind]; [|reflexivity].
+  rewrite (alias_tokinizer_seps lx c c' H).
+  destruct (alias_tokinizer lx (ck_today ck) c lang st2) as [st3|]; cbn [bind]; [|reflexivity].
+  destruct (unfuel (update_token_variables line vs st3)) as [st4|]; cbn [bind]; [|reflexivity].
+  rewrite (dyn_loop_seps c c' H).
+  destruct (unfuel (dyn_loop (loop_fuel st4) line c vs st4)) as [st5|]; cbn [bind]; [|reflexivity].
+  rewrite (rule_tokinizer_real lx ck c c' _ _ _ _ _ H). reflexivity.
+Qed.
+
+End TokinizeSeps.
+
+(* Api.execute_text: everything but the printed text (value or error, variables, highlighting, tokens)
+   is the same; the formatter is the only other reader of the separators *)
+Section TextSeps.
+Context {F : Type} {NF : Num F}.
+Variable lx : lexdata.
+Variable ck : clock.
+
+Definition result_value (r : line_result (F:=F)) : str + ast F :=
+  match r with LErr m => inl m | LOk _ v => inr v end.
+
+Definition obs_value (o : option (line_obs (F:=F))) :=
+  option_map (fun o => (result_value (lo_result o), lo_ui o, lo_tokens o, lo_infos o)) o.
+
+Theorem execute_text_seps (c c' : config F) lang vs line o o' vs1 vs1' :
+  same_but_seps c c' ->
+  (forall sp, read_decimal c' (slice line sp) = read_decimal c (slice line sp)) ->
+  execute_text lx ck c lang vs line = Ok (o, vs1) ->
+  execute_text lx ck c' lang vs line = Ok (o', vs1') ->
+  obs_value o' = obs_value o /\ vs1' = vs1.
+Proof.
+  intros H Hrd E E'. unfold execute_text in E, E'.
+  destruct line as [|ch0 rest]; [inversion E; inversion E'; subst; split; reflexivity|].
+  rewrite (tokinize_seps lx ck c c' lang vs _ H Hrd) in E'.
+  destruct (tokinize lx ck c lang vs (ch0 :: rest)) as [[st tokens]|]; cbn [bind] in E, E'; [|discriminate].
+  destruct (ts_infos st) as [|i0 infos]; [inversion E; inversion E'; subst; split; reflexivity|].
+  destruct (parse tokens vs) as [[a|m|] vs2]; try discriminate.
+  - rewrite (execute_ast_real lx ck c c' vs2 a H) in E'.
+    destruct (execute_ast (basic_execute lx ck) c vs2 a) as [[[v|m] vs3]|]; cbn [bind] in E, E'; try discriminate.
+    + destruct (format_result c lang (ck_year ck) v); cbn [bind] in E; [|discriminate].
+      destruct (format_result c' lang (ck_year ck) v); cbn [bind] in E'; [|discriminate].
+      inversion E; inversion E'; subst; split; reflexivity.
+    + inversion E; inversion E'; subst; split; reflexivity.
+  - inversion E; inversion E'; subst; split; reflexivity.
+Qed.
+
+End TextSeps.
+
+(* a string without the separator characters is left alone by the normalisation: the hypothesis of
+   tokinize_seps holds for every line that contains no separator character of either configuration *)
+Lemma normalise_free dsep tsep x :
+  seps_ok dsep tsep -> avoids dsep tsep x -> normalise dsep tsep x = x.
+Proof.
+  intros Hs Ha. unfold normalise. destruct Hs as [dc|dc tc Hne].
+  - rewrite replace_all_nil_nil, replace_all_single. apply subst1_free. apply Ha. cbn. auto.
+  - rewrite !replace_all_single. rewrite (subst1_free tc) by (apply Ha; cbn; auto).
+    apply subst1_free. apply Ha. cbn. auto.
+Qed.
+
+Lemma free_drop_bytes a x : forall n, free a x -> free a (drop_bytes x n).
+Proof.
+  induction x as [|ch r IH]; intros n Hx; [constructor|].
+  cbn [drop_bytes]. destruct (N.eqb n 0); [exact Hx|]. apply IH. now inversion Hx.
+Qed.
+
+Lemma free_take_bytes a x : forall n, free a x -> free a (take_bytes x n).
+Proof.
+  induction x as [|ch r IH]; intros n Hx; [constructor|].
+  cbn [take_bytes]. destruct (N.eqb n 0); [constructor|].
+  inversion Hx; subst. constructor; [assumption|]. now apply IH.
+Qed.
+
+Lemma avoids_slice dsep tsep x sp : avoids dsep tsep x -> avoids dsep tsep (slice x sp).
+Proof.
+  intros Hx ch Hc. unfold slice. apply free_take_bytes, free_drop_bytes, Hx, Hc.
+Qed.
+
+Section FreeLine.
+Context {F : Type} {NF : Num F}.
+
+(* a line that contains no separator character of either configuration is read alike *)
+Theorem read_decimal_free_line (c c' : config F) line :
+  seps_ok (cf_dsep c) (cf_tsep c) -> seps_ok (cf_dsep c') (cf_tsep c') ->
+  avoids (cf_dsep c) (cf_tsep c) line -> avoids (cf_dsep c') (cf_tsep c') line ->
+  forall sp, read_decimal c' (slice line sp) = read_decimal c (slice line sp).
+Proof.
+  intros Hs Hs' Ha Ha' sp. rewrite !read_decimal_normalise.
+  rewrite !normalise_free; auto using avoids_slice.
+Qed.
+
+End FreeLine.
+
+(* ------------------------------------------------------------------------------------- *)
+(* 4. binary64: the number read is the correctly rounded decimal D * 10^-k                *)
+(* ------------------------------------------------------------------------------------- *)
+From Coq Require Import Floats.
+From SC.Model Require Import NumF64.
+
+(* the integer a digit string denotes *)
+Fixpoint dec_val (acc : Z) (x : str) : Z :=
+  match x with
+  | [] => acc
+  | c :: r => dec_val (10 * acc + digit_val c) r
+  end.
+
+Lemma dec_val_app acc x y : dec_val acc (x ++ y) = dec_val (dec_val acc x) y.
+Proof. revert acc; induction x as [|c r IH]; intros; [reflexivity|]. cbn. apply IH. Qed.
+
+Lemma take_digits_digits x : forall rest acc cnt,
+  digits x -> match rest with [] => True | c :: _ => FloatIO.is_digit c = false end ->
+  take_digits (x ++ rest) acc cnt = (dec_val acc x, cnt + Z.of_nat (length x), rest).
+Proof.
+  induction x as [|c r IH]; intros rest acc cnt Hx Hr.
+  - cbn [app dec_val length]. rewrite Z.add_0_r.
+    destruct rest as [|c0 r0]; [reflexivity|]. cbn [take_digits]. rewrite Hr. reflexivity.
+  - inversion Hx as [|? ? Hc Hx']; subst.
+    cbn [app take_digits]. rewrite Hc. rewrite IH by assumption.
+    cbn [dec_val]. rewrite !Z.shiftl_mul_pow2 by lia.
+    f_equal. f_equal.
+    + f_equal. change (2 ^ 3) with 8. change (2 ^ 1) with 2. lia.
+    + cbn [length]. lia.
+Qed.
+
+Lemma digit_not_sign c : FloatIO.is_digit c = true -> (c =? ch_minus)%N = false /\ (c =? ch_plus)%N = false.
+Proof.
+  unfold FloatIO.is_digit, ch_minus, ch_plus. intro H. apply andb_true_iff in H as [H1 H2].
+  apply N.leb_le in H1. split; apply N.eqb_neq; lia.
+Qed.
+
+Theorem f64_parse_canonical ip fp :
+  digits ip -> ip <> [] -> digits fp ->
+  f64_parse (canonical ip fp) = Some (f64_of_decimal false (dec_val 0 (ip ++ fp)) (- Z.of_nat (length fp))).
+Proof.
+  intros Hi Hne Hf.
+  destruct ip as [|c0 ip']; [congruence|].
+  inversion Hi as [|? ? Hc0 Hi']; subst.
+  destruct (digit_not_sign c0 Hc0) as [Hm Hp].
+  unfold f64_parse, canonical. cbn [app]. rewrite Hm, Hp.
+  change (c0 :: ip' ++ frac_part [46%N] fp) with ((c0 :: ip') ++ frac_part [46%N] fp).
+  unfold parse_decimal.
+  destruct fp as [|d fr].
+  - cbn [frac_part]. rewrite (take_digits_digits (c0 :: ip') [] 0 0 Hi I).
+    replace (0 + Z.of_nat (length (c0 :: ip')) + 0 =? 0) with false
+      by (symmetry; apply Z.eqb_neq; cbn [length]; lia).
+    rewrite ?app_nil_r. reflexivity.
+  - cbn [frac_part]. change ([46%N] ++ d :: fr) with (46%N :: d :: fr).
+    rewrite (take_digits_digits (c0 :: ip') (46%N :: d :: fr) 0 0 Hi eq_refl).
+    change (46 =? ch_dot)%N with true. cbv iota.
+    rewrite <- (app_nil_r (d :: fr)) at 1.
+    rewrite (take_digits_digits (d :: fr) [] _ 0 Hf I).
+    replace (0 + Z.of_nat (length (c0 :: ip')) + (0 + Z.of_nat (length (d :: fr))) =? 0) with false
+      by (symmetry; apply Z.eqb_neq; cbn [length]; lia).
+    change (c0 :: ip' ++ d :: fr) with ((c0 :: ip') ++ d :: fr).
+    rewrite dec_val_app, Z.add_0_l. reflexivity.
+Qed.
+
+(* a literal  ip dsep fp  (ip grouped or not) is read as the correctly rounded binary64 of the
+   decimal number  <ip fp> * 10^-|fp|,  under every admissible separator configuration *)
+Theorem read_write_f64 (cfg : config float) grouped ip fp :
+  seps_ok (cf_dsep cfg) (cf_tsep cfg) -> nondigit (cf_dsep cfg) -> nondigit (cf_tsep cfg) ->
+  digits ip -> ip <> [] -> digits fp ->
+  read_decimal cfg (write (cf_dsep cfg) (cf_tsep cfg) grouped ip fp)
+  = Some (f64_of_decimal false (dec_val 0 (ip ++ fp)) (- Z.of_nat (length fp))).
+Proof.
+  intros. rewrite read_write by assumption. apply f64_parse_canonical; assumption.
+Qed.
+
+(* ------------------------------------------------------------------------------------- *)
+(* 5. non-vacuity, computed through the whole model at binary64                           *)
+(* ------------------------------------------------------------------------------------- *)
+From SC.Model Require Run64 Corr.
+
+Example group3_example :
+  group3 (s "1234567") = [s "1"; s "234"; s "567"] /\ group3 (s "123456") = [s "123"; s "456"] /\
+  group3 (s "12") = [s "12"] /\
+  write (s ",") (s ".") true (s "1234567") (s "5") = s "1.234.567,5" /\
+  write (s ".") (s ",") true (s "1234567") (s "5") = s "1,234,567.5" /\
+  write (s ".") [] true (s "1234567") (s "5") = s "1234567.5" /\
+  write (s ",") (s "'") true (s "1234567") [] = s "1'234'567" /\
+  normalise (s ",") (s ".") (s "1.234.567,5") = s "1234567.5".
+Proof. vm_compute. repeat split; reflexivity. Qed.
+
+(* (type name, bits of the number) of every line of an execution *)
+Definition value_bits (m : Corr.mobs) : list (option (str * Z)) :=
+  match m with
+  | Corr.MRes r =>
+    map (fun l => match l with
+                  | Some o => match lo_result o with
+                              | LOk _ (AItem i) => Some (item_type_name i, f64_to_bits (underlying_number i))
+                              | _ => None
+                              end
+                  | None => None
+                  end) (er_lines r)
+  | _ => []
+  end.
+
+Definition run_under (d t : string) (line : string) : list (option (str * Z)) :=
+  value_bits (last (Corr.run Run64.CK0 Corr.init_state
+                             [Corr.OSetDec (s d); Corr.OSetThou (s t); Corr.OExec (s "en") (s line)])
+                   (Corr.MRet None)).
+
+Definition b64 (m k : Z) : Z := f64_to_bits (f64_dec m k).
+
+Example examples_units :
+  run_under "," "." "1 inch to mm" = [Some (s "DYNAMIC_TYPE", b64 254 1)] /\
+  run_under "." "," "1 inch to mm" = [Some (s "DYNAMIC_TYPE", b64 254 1)] /\
+  run_under "," "." "1 m to km" = [Some (s "DYNAMIC_TYPE", b64 1 3)] /\
+  run_under "." "," "1 m to km" = [Some (s "DYNAMIC_TYPE", b64 1 3)] /\
+  run_under "," "." "1,5 km to m" = [Some (s "DYNAMIC_TYPE", b64 1500 0)] /\
+  run_under "." "," "1.5 km to m" = [Some (s "DYNAMIC_TYPE", b64 1500 0)].
+Proof. vm_compute. repeat split; reflexivity. Qed.
+
+Example examples_literals :
+  run_under "," "." "1.234,5 * 2" = [Some (s "NUMBER", b64 2469 0)] /\
+  run_under "." "," "1,234.5 * 2" = [Some (s "NUMBER", b64 2469 0)] /\
+  run_under "." "" "1234.5 * 2" = [Some (s "NUMBER", b64 2469 0)] /\
+  run_under "," "'" "1234,5 * 2" = [Some (s "NUMBER", b64 2469 0)] /\
+  run_under "," "." "x = 1.234,5
+x * 2" = [Some (s "NUMBER", b64 12345 1); Some (s "NUMBER", b64 2469 0)] /\
+  run_under "." "," "x = 1,234.5
+x * 2" = [Some (s "NUMBER", b64 12345 1); Some (s "NUMBER", b64 2469 0)] /\
+  run_under "," "." "12,5%" = [Some (s "PERCENT", b64 125 1)] /\
+  run_under "." "," "12.5%" = [Some (s "PERCENT", b64 125 1)] /\
+  run_under "," "." "1.234,5 usd" = [Some (s "MONEY", b64 12345 1)] /\
+  run_under "." "," "1,234.5 usd" = [Some (s "MONEY", b64 12345 1)] /\
+  run_under "," "." "10 usd to try" = run_under "." "," "10 usd to try" /\
+  run_under "," "." "10 usd to try" <> [None].
+Proof. vm_compute. repeat split; try reflexivity. discriminate. Qed.
+
+(* Known finding C08-K1: the reader function reads a literal grouped by ' ' as intended (read_write), but the literal
+   regexes of config.json admit only [0-9.,] inside a literal, so the lexer never hands it such a literal: under
+   (',' ' ') the line "1 234,5" is two numbers, 1 and 234,5, and evaluates to 235,5 *)
+Definition cfg_with (d t : string) : config float :=
+  set_fmt Run64.default_config (cf_money Run64.default_config) (cf_number Run64.default_config)
+          (cf_percent Run64.default_config) (s d) (s t) (cf_tz Run64.default_config).
+
+Example grouping_refuted :
+  write (s ",") (s " ") true (s "1234") (s "5") = s "1 234,5" /\
+  option_map f64_to_bits (read_decimal (cfg_with "," " ") (s "1 234,5")) = Some (b64 12345 1) /\
+  run_under "," " " "1 234,5" = [Some (s "NUMBER", b64 2355 1)] /\
+  run_under "," "." "1.234,5" = [Some (s "NUMBER", b64 12345 1)] /\
+  b64 2355 1 <> b64 12345 1 /\
+  write (s ",") (s "'") true (s "1234") (s "5") = s "1'234,5" /\
+  run_under "," "'" "1'234,5 * 2" = [Some (s "NUMBER", b64 1 0)].
+Proof. vm_compute. repeat split; try reflexivity. discriminate. Qed.
